@@ -405,6 +405,8 @@ def run(ctx):
     traces = check_scenarios(ctx, scs)
     for i in (0, len(scs) - 4):
         ctx.sample(dict(scenario=scs[i], events=[{k: e[k] for k in ("ev", "id", "n", "t", "pend") if k in e} for e in traces[i]["events"][:10]]))
+    from harness.props import x_bolfi_pipeline
+    x_bolfi_pipeline.check_bolfi_pipeline(ctx)      # extension: the BOLFI public call pipeline as a state machine (E: clauses, drift only)
 
 
 def replay(ctx, scenario):
